@@ -433,6 +433,20 @@ def final_sort(repo, chk):
         chk.bad('C08.7b', 'R15', fn.site(), f'{name} = {name}.sort_values(by=["Score"]); {name}.to_csv(pairwise_ranks.tsv)', f'{len(sorts)} sorts / {len(writes)} writes of pairwise_ranks.tsv found (expected one each)')
         return
     s = sorts[0]
+    par_fs = parents(fn.node)
+    def _ifs(node):
+        out, cur, child = [], par_fs.get(node), node
+        while cur is not None and cur is not fn.node:
+            if isinstance(cur, ast.If):
+                out.append((id(cur), any(child is b or any(child is y for y in ast.walk(b)) for b in cur.body)))
+            child, cur = cur, par_fs.get(cur)
+        return out
+    w_stmt = writes[0]
+    only_sort = [g for g in _ifs(s) if g not in _ifs(w_stmt)]
+    if only_sort:
+        chk.bad('C08.7b', 'R15', fn.site(s), ast.unparse(s), 'the table is sorted only on one branch of a test that the write of pairwise_ranks.tsv does not depend on: on the other branch the file is written in '
+                'groupby order, not in ascending score order')
+        return
     t = term_of(fn, s.value, inline=False)
     forms = [E(f"{name}.sort_values(by=['Score'])"), E(f"{name}.sort_values(by='Score')"), E(f"{name}.sort_values('Score')"), E(f"{name}.sort_values(['Score'])"), E(f"{name}.sort_values(by=['Score'], ascending=True)"), E(f"{name}.sort_values(by='Score', ascending=True)")]
     chk.expect(t in forms and s.lineno < writes[0].lineno, 'C08.7b', 'R15', fn.site(s), ast.unparse(s), 'pairwise_ranks.tsv lists the pairs in ascending score order', f'the table must be sorted by Score ascending before it is written; found {show(t)[:120]}')
